@@ -18,6 +18,19 @@ func init() {
 	finishers["C12"] = finishC12
 }
 
+func bigConcDoc() string {
+	var b strings.Builder
+	b.WriteString(`{"a":[`)
+	for i := 0; i < 40; i++ {
+		if i > 0 {
+			b.WriteString(",")
+		}
+		fmt.Fprintf(&b, `{"k":%d,"t":%d}`, (i*7)%40, i)
+	}
+	b.WriteString(`],"b":["b","a","c"]}`)
+	return b.String()
+}
+
 var concDocs = []string{
 	`{"a":[{"k":2,"t":0},{"k":1,"t":1},{"k":3,"t":2}],"b":["b","a","c"]}`,
 	`{"a":[3,1,2],"b":[2,1]}`,
@@ -102,6 +115,24 @@ func makeScenarios(expr string, n int, docIdx int) []scenario {
 				res, err, pn := impl.SearchOnce(expr, d)
 				return resKey(res, err, pn)
 			})
+		}
+		return st, bodies
+	}, n})
+	// S7: the compiled expression has a past (it was searched on every document, incl. failing ones,
+	// and on a 40-element document) before the threads use it concurrently
+	out = append(out, scenario{"S7 same expression after earlier (also failing) searches, different documents", expr, func() (*scState, []func() interface{}) {
+		st := &scState{jp: compile()}
+		for i := range concDocs {
+			impl.Search(st.jp, jdoc(i))
+		}
+		impl.Search(st.jp, "not a container")
+		impl.Search(st.jp, spare(univJ(`{"a":{"x":"s","y":1,"z":[1]},"b":"s"}`)))
+		st.shared = snap.Roots{{Name: "expr", V: st.jp}, {Name: "globals", V: globals}}
+		var bodies []func() interface{}
+		for i := 0; i < n; i++ {
+			d := jdoc(docIdx + i)
+			st.docs = append(st.docs, d)
+			bodies = append(bodies, searchBody(st.jp, d))
 		}
 		return st, bodies
 	}, n})
@@ -309,14 +340,45 @@ func firstUse(c *shardCtx) {
 	}
 }
 
+// largeDoc: scenarios on a 40-element document (size-gated optimisations); decided by the solo write
+// monitor only (the interleaving space of a 40-element projection is not explored).
+func largeDoc(c *shardCtx) {
+	exprs := []string{"a[?k >= `0`]", "a[?k >= `0`].t", "a[*].k", "sort_by(a, &k)[0].t", "a[::-1][0]", "a[].t", "max_by(a, &k).t", "map(&k, a)", "a[?k > `100`]", "length(a)", "a[*].[k, t]", "*", "sum(a[*].k)", "sort(a[*].k)", "a[1:30:2]", "reverse(a)[0]"}
+	expr := exprs[c.shard%len(exprs)]
+	globals := jmespath.VerifGlobals()
+	sc := scenario{"S8 same expression, same 40-element document", expr, func() (*scState, []func() interface{}) {
+		jp, _, _ := impl.Compile(expr)
+		st := &scState{jp: jp}
+		d := spare(univJ(bigConcDoc()))
+		st.docs = []interface{}{d}
+		st.shared = snap.Roots{{Name: "expr", V: st.jp}, {Name: "globals", V: globals}, {Name: "doc", V: d}}
+		return st, []func() interface{}{searchBody(st.jp, d), searchBody(st.jp, d)}
+	}, 2}
+	c.add("scenarios", 1)
+	info := solo(&sc, 0)
+	c.add("solo_runs", 1)
+	c.add("monitor_points", int64(info.points))
+	if len(info.writes) > 0 {
+		w := info.writes[0]
+		site := w[:strings.Index(w, ": ")]
+		c.report(harness.Violation{Kind: "race", Signature: "unsynchronised-shared-write@" + site,
+			Input:    map[string]interface{}{"expression": expr, "scenario": sc.name},
+			Expected: "a call only reads the compiled expression, package-level state and shared documents",
+			Observed: "a single call on a 40-element document writes shared state without synchronisation: " + strings.Join(info.writes, " | "), Site: site})
+	} else if info.locked == 0 && info.syncOps == 0 {
+		c.add("scenarios_decided_by_reduction", 1)
+	}
+}
+
 func workC12(c *shardCtx) {
 	firstUse(c) // must come before any other library call of this process
+	largeDoc(c)
 	wf := 3
 	if c.thorough() {
 		wf = 4
 	}
 	exprs := scenarioExprsW(c.thorough(), wf)
-	curated := 77 // (the constant-operand expressions that follow them are explored like generated ones)
+	curated := 94 // (the constant-operand expressions that follow them are explored like generated ones)
 	// the hand-written head of the list (literals in the AST, reordering functions)
 	nThreads := 2
 	maxPre := 0
